@@ -35,6 +35,12 @@ AApply ==
   /\ encA' = Head(toA)
   /\ blocks' = Append(blocks, [sz |-> Head(toA), upd |-> TRUE])
   /\ UNCHANGED <<decR, encR, limB, ok, n>>
+\* A processes several forwarded SETTINGS at once; its next block carries the size updates for all of them
+AApplyAll ==
+  /\ Len(toA) >= 2 /\ toA' = <<>>
+  /\ encA' = toA[Len(toA)]
+  /\ blocks' = Append(blocks, [sz |-> toA[Len(toA)], upd |-> TRUE])
+  /\ UNCHANGED <<decR, encR, limB, ok, n>>
 \* A sends an ordinary header block that may reference every entry its table holds
 ABlock ==
   /\ n < Max /\ n' = n + 1
@@ -50,7 +56,7 @@ RelayDecode ==
      /\ ok' = (ok /\ b.sz <= d)
   /\ UNCHANGED <<encA, encR, limB, toA, n>>
 
-Next == (\E v \in Sizes : BSettings(v)) \/ AApply \/ ABlock \/ RelayDecode
+Next == (\E v \in Sizes : BSettings(v)) \/ AApply \/ AApplyAll \/ ABlock \/ RelayDecode
 Spec == Init /\ [][Next]_vars
 DecodesEverything == ok                 \* C10: same header lists, whatever the timing of table-size changes
 EncoderWithinLimit == encR <= limB      \* never exceeds what B announced
